@@ -88,8 +88,12 @@ def gen(rnd, nh_only=False, close=False):
         parts = [p for p in parts if p]
     else:
         parts = [order]
+    # a real H_0 (real factorisations of E - H_0) under a complex Hermitian perturbation: complex right-hand sides for real Green's functions
+    cpert = close and herm and not cplx and structure == "generic" and rnd.random() < 0.35
+    if cpert: structure = "real H_0, complex perturbation"
     def pert(scale):
         m = rand((N, N)) if structure != "real explicit vectors, complex rest" else rng.normal(size=(N, N))
+        if cpert: m = m + 1j * rng.normal(size=(N, N))
         return scale * ((m + m.conj().T) / 2 if herm else m)
     solver = "direct"
     if herm and rnd.random() < 0.3: solver = rnd.choice(["kpm", "kpm-aux"])
@@ -97,7 +101,7 @@ def gen(rnd, nh_only=False, close=False):
     if pat == "close-pair":      # (eliminating the coupling inside the close pair divides by the splitting: rounding amplified beyond the tolerance of the comparison, in both runs)
         fd = tuple(b for b in fd if 0 not in parts[b]); solver = "direct"
     return dict(N=N, cplx=cplx, herm=herm, ev=ev, R=R, L=L, H0=H0, H1=pert(0.5), H2=(pert(0.3) if rnd.random() < 0.4 else None), dA=dA, parts=parts,
-                fd=fd, solver=solver, pattern=pat, structure=structure)
+                fd=fd, solver=solver, pattern=pat, structure=structure, cplx_pert=cpert)
 
 def dense(v, shape):
     if v is zero: return np.zeros(shape, dtype=complex)
